@@ -50,6 +50,10 @@
    holding an old result), below a sub-directory that holds inputs, sorted
    first, with a failing file; the files present at the start yield one
    output each and nothing else is written.
+10. Entry points agree under option sets where only one of preserve_suffix_v4
+   / preserve_suffix_v6 is given (v4 only 4, 8, 16; v6 only 8, 64; both;
+   none) on texts with IPv4 and IPv6 addresses: directory API, single-file
+   API and FileAnonymizer.anonymize_file against the stream API.
 """
 import concurrent.futures
 import itertools
@@ -197,7 +201,7 @@ def worker_main(jobfile, outfile, fsroot):
     with open(outfile, "w", encoding="utf-8") as fh:
         for g in groups:
             fn = {"iso": W.run_iso, "rel": W.run_rel, "blk": W.run_blocked, "sib": W.run_siblings,
-                  "seq": W.run_sequence, "nest": W.run_nested}.get(g.get("kind"), W.run_group)
+                  "seq": W.run_sequence, "nest": W.run_nested, "hb": W.run_hostbits}.get(g.get("kind"), W.run_group)
             res = fn(g, fsroot, common.REPO)
             fh.write(json.dumps(res) + "\n")
 
@@ -207,7 +211,7 @@ def run_groups(groups, nproc=common.NPROC):
     shards = [[] for _ in range(nproc)]
     # balance by number of executions
     loads = [0] * nproc
-    cost = lambda g: (8 * len(g["entries"]) if g.get("kind") == "iso" else 2 * len(g["entries"]) if g.get("kind") in ("rel", "blk", "sib", "seq", "nest") else
+    cost = lambda g: (8 * len(g["entries"]) if g.get("kind") == "iso" else 2 * len(g["entries"]) if g.get("kind") in ("rel", "blk", "sib", "seq", "nest", "hb") else
                       sum(len(s["entries"]) + 8 * sum(e.startswith("cli") for e in s["entries"]) for s in g["scenarios"]) + 2)
     for g in sorted(groups, key=cost, reverse=True):
         j = loads.index(min(loads))
@@ -393,6 +397,8 @@ def run(pid, tier):
     # output directory inside the input directory (FilesNest.tla)
     nest_shapes = sorted(W.NEST_JOBS)
     hand += [("nest", sh, ["dir", "main"], ft) for sh in nest_shapes for ft in (("PAWN", "P") if thorough else ("PAWN",))]
+    # entry points agree under option sets with only one of the two host-bit options
+    hand += [("hb", ft, ["dir", "file", "fafile"], ft) for ft in W.HB_SETS]
     nrel = len(rel_jobs)
     rel_jobs += [{"kind": kd, "gid": len(groups) + len(iso_jobs) + nrel + i, "tree": sh, "shape": sh, "form": "-", "feat": ft, "entries": en}
                  for i, (kd, sh, en, ft) in enumerate(hand)]
@@ -409,7 +415,7 @@ def run(pid, tier):
                  "other_files_after_failing": 0, "other_files_between_failing": 0, "other_files_rewritten": 0}
     rel_execs = 0
     for go in outs:
-        if go.get("kind") in ("rel", "blk", "sib", "seq", "nest"):
+        if go.get("kind") in ("rel", "blk", "sib", "seq", "nest", "hb"):
             job = rel_by_gid[go["gid"]]
             for res_ in go["results"]:
                 rel_execs += 1
@@ -466,13 +472,13 @@ def run(pid, tier):
             _, job, res_, _ = meta[ti]
             ev = traces[ti][k]
             fam = {"rel": "relative-paths", "blk": "blocked-output-subdirectory", "sib": "sibling-inputs-with-derived-names",
-                   "seq": "repeated-single-file-calls", "nest": "output-inside-input"}[job["kind"]]
+                   "seq": "repeated-single-file-calls", "nest": "output-inside-input", "hb": "host-bit-options"}[job["kind"]]
             key = "clause=%s entry=%s family=%s tree=%s form=%s" % (clause, res_["entry"], fam, job["tree"], job["form"])
             if ev.get("ev") == "file":
                 key += " fault=%s" % ev["fault"]
             tree = (W.REL_TREES[job["tree"]]["files"] if job["kind"] == "rel" else W.BLOCK_TREES[job["tree"]] if job["kind"] == "blk"
                     else W.SIB_JOBS[job["tree"]] if job["kind"] == "sib" else W.SEQ_JOBS[job["tree"]] if job["kind"] == "seq"
-                    else (W.NEST_TREE, W.NEST_JOBS[job["tree"]]))
+                    else (W.NEST_TREE, W.NEST_JOBS[job["tree"]]) if job["kind"] == "nest" else "two files with IPv4 and IPv6 addresses")
             what = ("%s: entry=%s input=%r output=%r options=%s tree=%s -> %s %s; files that appeared/changed elsewhere: %s; raised=%s reports=%s" %
                     (clause, res_["entry"], res_["info"].get("input_arg", "<sandbox>/in"), res_["info"].get("output_arg", "<sandbox>/out"), job["feat"], tree,
                      ev.get("id", "end-of-run"), {x: ev[x] for x in ("fault", "pre", "out", "ref", "reported", "raised") if x in ev}, res_["info"]["others_changed"],
@@ -522,6 +528,9 @@ def run(pid, tier):
     ck.notes["phase_wall"] = tm
 
     ck.notes["scenarios"] = gen_counts
+    ck.notes["host_bit_option_family"] = {"option_sets": W.HB_SETS, "entries": ["dir", "file", "fafile"],
+                                          "what": "preserve_suffix_v4 / preserve_suffix_v6 given separately ('-' = not passed); texts with IPv4 and IPv6 "
+                                                  "addresses; every entry point must reproduce the stream API's bytes under the same options and salt"}
     ck.notes["output_inside_input_family"] = {"jobs": {k: list(v) for k, v in W.NEST_JOBS.items()}, "tree": W.NEST_TREE,
                                               "what": "anonymize_files / main with the output directory inside the input directory; R (FilesNest.tla): the files "
                                                       "present at the start yield one output each, nothing else is written"}
@@ -565,7 +574,7 @@ def replay(pid, path):
     case = json.load(open(path))["case"]
     if "rel_job" in case:
         job = dict(case["rel_job"], entries=[case["entry"]])
-        res_ = {"blk": W.run_blocked, "rel": W.run_rel, "sib": W.run_siblings, "seq": W.run_sequence, "nest": W.run_nested}[job["kind"]](
+        res_ = {"blk": W.run_blocked, "rel": W.run_rel, "sib": W.run_siblings, "seq": W.run_sequence, "nest": W.run_nested, "hb": W.run_hostbits}[job["kind"]](
             job, tlc.subdir("fs"), common.REPO)["results"][0]
         rejected, _ = validate_traces("FilesTrace", "FilesTrace.cfg", [res_["events"]])
         for ti, (k, clause) in sorted(rejected.items()):
